@@ -26,7 +26,12 @@ func checkC13(c *Ctx) {
 	c.checkNullableLookups()
 	// the token authenticator slices attacker-supplied bytes before login: its length guard is part
 	// of the crash defence (shared rule family with C12)
-	c.checkTokenAuth()
+	// (only the gates that stand between attacker-supplied bytes and a panic: the length test on the
+	// slice bound and the per-call MAC state; whether an expired or foreign token is accepted is C12's
+	// and C11's business, not a crash)
+	c.R.Scoped(func(rule, construct string) bool {
+		return strings.Contains(construct, "length covers the signature slice") || rule == "C12.1b-token-slice-bounded" || rule == "C12.1d-token-key"
+	}, c.checkTokenAuth)
 	c.checkReplyObligation()
 	c.checkPanicCensus()
 	c.checkValidatorInitialised()
